@@ -185,6 +185,45 @@ def leanchecker(modules):
 # ----------------------------------------------------------------------------------------------
 # tie (A): the NodeId kernel regenerated from the Python source
 # ----------------------------------------------------------------------------------------------
+def _gen_defs(text):
+    """{name: text of the definition} of a generated file"""
+    defs, name, buf = {}, None, []
+    for l in text.splitlines():
+        if l.startswith(("/--", "end Opcua.Gen", "-- UNSUPPORTED")):
+            if name:
+                defs[name] = "\n".join(buf).rstrip()
+            name, buf = None, []
+        elif l.startswith("def "):
+            name, buf = l.split()[1], [l]
+        elif name:
+            buf.append(l)
+    if name:
+        defs[name] = "\n".join(buf).rstrip()
+    return defs
+
+
+def _still_tied(committed, tr):
+    """after a failed tie: which generated definitions are, text for text, the committed ones (and mention only such definitions)?
+    The built tie theorems about those are still theorems about the current source."""
+    import re
+    rc, out, err = sh([sys.executable, "-B", tr, "--partial", REPO], timeout=120)
+    if rc != 0:
+        return None
+    old, new = _gen_defs(committed), _gen_defs(out)
+    left = [l.split()[2].rstrip(":") for l in out.splitlines() if l.startswith("-- UNSUPPORTED")]
+    tied = {n for n in old if new.get(n) == old[n]}
+    changed = True
+    while changed:
+        changed = False
+        for n in sorted(tied):
+            used = {m for m in old if m != n and re.search(r"(?<![A-Za-z0-9_.])%s(?![A-Za-z0-9_])" % re.escape(m), old[n])}
+            if not used <= tied:
+                tied.discard(n)
+                changed = True
+    return {"unchanged_definitions_still_tied": sorted(tied), "left_the_subset": left,
+            "changed_or_depending_on_a_changed_one": sorted(n for n in old if n not in tied and n not in left)}
+
+
 def translator_tie():
     """Translate value_parser.cached_parse_nodeid / parse_nodeid, UANodeId.__str__, nodeset_parser.extend_namespace_map,
     UAGraph._get_namespace_list and UANodeId.nodeid_type_value_to_int / xml_encode / json_encode from /repo's current source.
@@ -197,7 +236,7 @@ def translator_tie():
     rc, out, err = sh([sys.executable, "-B", tr, REPO], timeout=120)
     committed = open(os.path.join(LEAN, "OpcuaModel", "Gen", "NodeIdGen.lean"), encoding="utf-8").read()
     if rc != 0:
-        return {"tie": "correspondence-only", "reason": "translator: " + (err.strip().splitlines() or ["failed"])[-1][:300]}
+        return {"tie": "correspondence-only", "reason": "translator: " + (err.strip().splitlines() or ["failed"])[-1][:300], "per_definition": _still_tied(committed, tr)}
     if out == committed:
         return {"tie": "regenerated-identical", "generated_definitions": ["cached_parse_nodeid", "parse_nodeid", "nodeid_str", "extend_namespace_map", "get_namespace_list", "nodeid_type_value_to_int", "nodeid_xml_encode", "nodeid_json_encode", "qname_xml_encode", "qname_json_encode",
                                                                           "int_xml_encode_{sbyte,byte,int16,uint16,int32,uint32,int64,uint64}", "bool_xml_encode",
@@ -215,7 +254,8 @@ def translator_tie():
     if rc2 == 0 and "sorry" not in out2:
         return {"tie": "regenerated-reproved", "note": "the source differs from the pinned one; the tie theorems check against the regenerated definitions"}
     first = [l for l in (out2 + err2).splitlines() if "error" in l][:3]
-    return {"tie": "correspondence-only", "reason": "tie theorems do not check against the regenerated definitions: " + " | ".join(first)[:500]}
+    return {"tie": "correspondence-only", "reason": "tie theorems do not check against the regenerated definitions: " + " | ".join(first)[:500],
+            "per_definition": _still_tied(committed, tr)}
 
 
 # ----------------------------------------------------------------------------------------------
